@@ -38,6 +38,8 @@ def verify(sd):
             print(out)
             return res
         demo_t = os.path.join(sd, "demo_test.go")
+        if not os.path.exists(demo_t) and os.path.exists(demo_t + ".txt"):
+            demo_t += ".txt"
         pkg = None
         if os.path.exists(demo_t):
             pkg = meta.get("demo_pkg") or demo_pkg(meta, sd)
